@@ -306,6 +306,6 @@ CLAIM = {
             "bankruptcy price, counted once, executed at once through the real Order.execute / FuturesExchange / Position / "
             "ClosedTrades code; the wallet change equals -(entry*size/leverage) - fee as a polynomial identity. Placement after the "
             "matching loop is decided by the exhaustive 1m matching-loop runs and a trace rule for the fast loop; the close -> "
-            "cancel-all chain by a trace rule. Liquidation and bankruptcy price re-read after the position was increased, reduced, closed and reopened are those of the current entry price (no stale memo).",
+            "cancel-all chain by a trace rule. Liquidation and bankruptcy price re-read after the position was increased, reduced, closed and reopened are those of the current entry price (no stale memo). Leverage-1 scenarios (bankruptcy price 0), an all-in wallet witness, memo invalidation completeness of Position (R8).",
     "note": "Trusted: interpreter semantics; candle positions are the 5 ordinal cells of (low, high) vs liquidation price.",
 }
